@@ -120,6 +120,7 @@ def run(ctx):
     ctx.guarded("R-C01-start", start, ctx, prog)
     ctx.guarded("R-C01-cache", cache, ctx, prog)
     ctx.guarded("R-C01-unsubscribe", unsubscribe, ctx, prog)
+    ctx.guarded("R-C01-unsubscribe", unsubscribe_keyspace, ctx, prog)
     ctx.guarded("R-C01-match", matchroles.check, ctx, "R-C01-match", prog, r"^router::logs::DataLog::matches$", "topic -> subscribed filters on publish")
     ctx.guarded("R-C01-match", matchroles.check, ctx, "R-C01-match", prog, r"^router::logs::DataLog::next_native_offset$", "new filter -> cached topics")
 
@@ -175,6 +176,39 @@ def unsubscribe(ctx, prog):
             ctx.ok(rule, body.id, "Success only after removal from the " + what, site=body.loc(hits[0][1].get("sp")))
         else:
             ctx.violation(rule, body.id, "removal with a foreign id: " + what, "the removal from the %s is not addressed with the handler's own connection id" % what, site=body.loc(hits[0][1].get("sp")))
+
+
+def unsubscribe_keyspace(ctx, prog):
+    """filter_indexes (filter -> log) is keyed by TOPIC filters: a shared subscription `$share/<group>/<filter>` lives in
+    the log of `<filter>` (the Subscribe arm strips the prefix before next_native_offset).  The removal of its parked
+    request must strip it too — in DataLog::remove_waiters_for_id or at its call site — or the lookup misses and
+    the request stays parked after a successful UNSUBSCRIBE."""
+    rule = "R-C01-unsubscribe"
+    STRIP = r"str>::strip_prefix$|::strip_prefix$|str>::split_once$|::split_once$|routing::extract_group$"
+    THROUGH = [r"Option::<T>::(and_then|map_or|map|unwrap_or|unwrap_or_else|as_deref|as_ref|unwrap_or_default)$", r"String::as_str$", r"Deref>::deref$", r"Borrow<.*>>::borrow$"]
+
+    def stripped(body, op):
+        return any(x.kind == "call" and re.search(STRIP, x.path) for x in flatten_src(provenance(body, op, through_calls=THROUGH)))
+    rw = prog.one(r"^router::logs::DataLog::remove_waiters_for_id$")
+    gets = [(bb, t) for bb, t in rw.calls() if re.search(r"HashMap::<K, V, S(, A)?>::get$", callee_path(t)) and (receiver_fields(rw, t) or [None])[-1] == "filter_indexes" and not rw.is_cleanup(bb)]
+    if not gets:
+        raise AnchorMissing("remove_waiters_for_id: lookup in filter_indexes not found")
+    inside = all(stripped(rw, t["args"][1]) for bb, t in gets)
+    hd = prog.one(r"^router::routing::Router::handle_device_payload$")
+    sites = [(bb, t) for bb, t in hd.calls() if callee_path(t).endswith("DataLog::remove_waiters_for_id") and not hd.is_cleanup(bb)]
+    outside = bool(sites) and all(stripped(hd, t["args"][2]) for bb, t in sites)
+    # reference: the Subscribe arm strips before creating / finding the log
+    nn = [(bb, t) for bb, t in hd.calls() if callee_path(t).endswith("DataLog::next_native_offset") and not hd.is_cleanup(bb)]
+    sub_strips = bool(nn) and all(stripped(hd, t["args"][1]) for bb, t in nn)
+    if not sub_strips:
+        ctx.ok(rule, hd.id, "the Subscribe arm does not strip a share prefix: logs are keyed by the full path (nothing to agree with)", trivial=True)
+        return
+    if inside or outside:
+        ctx.ok(rule, rw.id, "parked requests of a shared subscription are looked up under the stripped topic filter, like the Subscribe arm does (%s)" % ("in remove_waiters_for_id" if inside else "at the call site"), site=rw.fn_loc())
+    else:
+        ctx.violation(rule, rw.id, "shared filter looked up unstripped",
+                      "the Subscribe arm files a `$share/<group>/<filter>` subscription under the log of `<filter>`, but the UNSUBSCRIBE path looks the parked request up under the full `$share/...` path: the lookup misses, the request stays parked, and the client keeps receiving after a successful UNSUBACK",
+                      site=rw.loc(gets[0][1].get("sp")))
 
 
 # ------------------------------------------------------------------------------------------
@@ -332,6 +366,15 @@ def wake(ctx, prog):
                 ctx.violation(rule, fn, "drain loop without reschedule", "a popped waiter is tracked but its connection is not rescheduled with FreshData (for the popped id)", site=body.loc(pt.get("sp")))
             else:
                 ctx.ok(rule, fn, "drain loop tracks and reschedules (FreshData) every popped waiter", site=body.loc(pt.get("sp")))
+            # the drain empties the queue: after a popped waiter was handled control returns to the pop (a loop);
+            # the only way past the drain is the None edge
+            past = reachable(body, (some_t,), avoid_blocks=(pb,)) & rets
+            if pb not in reachable(body, (some_t,)) or past:
+                ctx.violation(rule, fn, "drain stops after the first waiter",
+                              "after handling one popped waiter the handler can go on without popping again: the other connections parked on the log are not woken for the data just appended",
+                              site=body.loc(pt.get("sp")))
+            else:
+                ctx.ok(rule, fn, "the drain loops until notifications.pop_front() returns None", site=body.loc(pt.get("sp")))
 
 
 # ------------------------------------------------------------------------------------------
